@@ -14,8 +14,9 @@ LEVEL_TEXT = ('static analysis by finite-domain abstract interpretation of call.
               ' + 1 exactly on the classes with r = ploidy//2; (D4) the value stored in `cn` by do_call is round()ed, integer and has interval '
               'lower bound >= 0 for every real log2 and purity in (0,1], and without purity it is round(r*2^log2) row by row also on a literal '
               'table whose chromosomes are interleaved; (D6) the stated sample sex always wins over the inferred one in verify_sample_sex (C15 '
-              'rule); (D5) sex / PAR / ploidy / purity flags reach same-role parameters at every call site. Exact over the rationals; IEEE '
-              'rounding error is not modelled.')
+              'rule); (D5) sex / PAR / ploidy / purity flags reach same-role parameters at every call site. The call tables also come without any'
+              ' X row and with Y rows only (chr-named), and a `.loc` store keyed by the labels of masked rows (index[mask]) on a table whose '
+              'labels may repeat is a violation. Exact over the rationals; IEEE rounding error is not modelled.')
 TECHNIQUE = "abstract interpretation over finite row-class / flag domains with exact rational terms and intervals; role-flow lint"
 
 GETDF = "cnvlib.call.get_as_dframe_and_set_reference_and_expect_copies"
@@ -228,6 +229,9 @@ def run(chk):
     chk.clause("D6", "the stated sample sex reaches the computation: verify_sample_sex (C15 rule)")
     from . import C15
     C15.d3c_stated_sex(chk, prog)
+    chk.clause("D7", "the `call` command line: every option reaches do_call (and the centring / variant / sex steps before it) as given")
+    from .. import cliglue
+    cliglue.check_call(chk, prog)
 
 
 _C = "cnvlib/call.py"
